@@ -10,7 +10,8 @@
                                     delivered by PushTo; origs = the timestamps of the original tag
                                     objects read back after PushTo (must be the inputs) *)
 From Coq Require Import ZArith List Bool.
-From V Require Import Val StreamLts Cache C02Classify.
+From V Require Import C08Flv.
+From V Require Import Val StreamLts Cache C02Classify C02FlvProducer.
 Import ListNotations.
 Open Scope Z_scope.
 
@@ -71,3 +72,31 @@ Definition x_C02_classify_flv_ok (v : val) : val :=
                 (map as_int (as_list (nthv 0 obs)))
                 (map (fun p => (as_int (nthv 0 p), as_int (nthv 1 p))) (as_list (nthv 1 obs)))
                 (map as_int (as_list (nthv 2 obs)))).
+
+(* ---- FLV producer: frames through the real flv.Muxer into a real FlvCache (cache_gop on) ----
+   case = (hevc aac frames)   hevc, aac 0/1; frames = list of (mediatype dts_ns pts_ns payload),
+                              mediatype 0 video (payload = one NAL unit, non-empty), 1 audio
+   observation = (kinds pushed origs), as for classify_flv: kinds of the tags the muxer wrote, in
+   order (index = position); pushed = (index timestamp) list PushTo delivers; origs = the tags'
+   timestamps read back afterwards *)
+Record pcase := { pc_hevc : bool; pc_aac : bool; pc_frames : list frame }.
+Definition dec_pcase (v : val) : pcase :=
+  {| pc_hevc := as_bool (nthv 0 v); pc_aac := as_bool (nthv 1 v);
+     pc_frames := map (fun f => mkFrame (as_int (nthv 0 f)) (as_int (nthv 1 f)) (as_int (nthv 2 f))
+                                        (as_bytes (nthv 3 f))) (as_list (nthv 2 v)) |}.
+
+Definition x_C02_flv_producer (v : val) : val :=
+  let c := dec_pcase v in
+  let kinds := prod_kinds (pc_hevc c) (pc_aac c) (pc_frames c) in
+  let tss := prod_tss (pc_hevc c) (pc_aac c) (pc_frames c) in
+  VL [ vlist VI kinds;
+       vlist (fun t => VL [VI (C02Classify.t_id t); VI (C02Classify.t_ts t)]) (flv_pushed true kinds tss);
+       vlist VI tss ].
+
+(* oracle on (case observed) = Model.prod_ok, the function of [prod_model_passes] *)
+Definition x_C02_flv_producer_ok (v : val) : val :=
+  let c := dec_pcase (nthv 0 v) in let obs := nthv 1 v in
+  vbool (prod_ok (pc_hevc c) (pc_aac c) (pc_frames c)
+                 (map as_int (as_list (nthv 0 obs)))
+                 (map (fun p => (as_int (nthv 0 p), as_int (nthv 1 p))) (as_list (nthv 1 obs)))
+                 (map as_int (as_list (nthv 2 obs)))).
